@@ -30,7 +30,7 @@ func init() {
 			}
 			return 2
 		},
-		Cases:       func(r *obs.Run) int { return r.Share(r.Pick(15000, 100000)) },
+		Cases:       func(r *obs.Run) int { return r.Share(r.Pick(15000, 800000)) },
 		Case:        c16Case,
 		MinDistinct: func(t string) int { return 2000 },
 		Floors: func(string) map[string]int64 {
